@@ -1,4 +1,5 @@
 import MiniconfVerif.Lemmas.WalkStruct
+import MiniconfVerif.Lemmas.Factor
 
 /-! # C02 — every by-key operation classifies a key as the documented top-down walk does
 
@@ -71,6 +72,43 @@ theorem operations_agree (io io' : Io) (op op' : Op) (t t' : Tree) (ks : KeySrc)
     · rw [hp'] at h2; cases h2
     · right; exact ⟨d1, e1, h1, by rw [h2, h1']⟩
     · right; exact ⟨d1, d2, h1, h2⟩
+
+/-- **The depth is the number of keys consumed**: the type-level outcome of any key is one of
+`Ok(n)` (a leaf after `n` keys), `TooShort(n)` (keys exhausted at an internal node after `n`),
+`TooLong(n)` (surplus keys at a leaf after `n`), `NotFound(n + 1)` (the `n+1`-th key names no
+child) — where `n` is the length of the node path the keys selected (or, in the model, a panic
+site, excluded by C16).  With `one_walk` this fixes the depth of every structural outcome of
+every operation. -/
+theorem structural_depths (s : Schema) (hwf : s.WF) (ks : KeySrc) :
+    ∃ p t, s.at? p = some t ∧
+      ((s.traverse cb0 ks ()).1 = .ok p.length ∧ t.isLeaf = true ∨
+       (s.traverse cb0 ks ()).1 = .trav (.tooLong p.length) ∧ t.isLeaf = true ∨
+       (s.traverse cb0 ks ()).1 = .trav (.tooShort p.length) ∧ t.isLeaf = false ∨
+       (s.traverse cb0 ks ()).1 = .trav (.notFound (p.length + 1)) ∧ t.isLeaf = false ∨
+       (s.traverse cb0 ks ()).1.isPanic = true) := by
+  obtain ⟨p, hp⟩ := traverse_factor cb0 s ks () hwf
+  rcases hp with ⟨t, ks', st', h1, _, h3, h4⟩ | ⟨_, _, _, _, _, _, _, _, h5, _⟩
+  · refine ⟨p, t, h1, ?_⟩
+    rw [h4]
+    simp only [stopAt]
+    cases hl : t.isLeaf with
+    | true =>
+      simp only [if_true]
+      cases hf : ks'.finalize with
+      | ok u => left; simp [incrN_ok]
+      | error e => right; left; rw [finalize_err ks' e hf]; simp [incrN_tooLong]
+    | false =>
+      simp only [Bool.false_eq_true, if_false]
+      rcases h3 with h3 | ⟨e, he⟩
+      · rw [hl] at h3; cases h3
+      · simp only [he]
+        rcases next_err ks' _ e he with rfl | rfl | hpn
+        · right; right; left; simp [incrN_tooShort]
+        · right; right; right; left; simp [incrN_notFound]; omega
+        · right; right; right; right
+          obtain ⟨sx, hs⟩ := incrN_panic p.length e hpn
+          rw [hs]; rfl
+  · simp [cb0] at h5
 
 /-- every index handed on by a key source is within the node's children
 (so no container impl can index out of bounds) -/
